@@ -374,3 +374,16 @@ Proof.
 Qed.
 
 End OmapProofs.
+
+(* The call skeleton OmapModel.v was written from, regenerated from omap.go on every run: Set
+   delegates to Replace (not Add), Delete to Remove, GetOK to Get, Get to GetOK, Clear to Clear,
+   First/Last to Root().Min()/Max(), Iter.Seek to InorderAfter and Cursor, Next/Prev/IsValid to the
+   cursor's.  A change of these calls stops this lemma (the correspondence then has to show
+   whether the behaviour changed). *)
+Lemma omap_skeleton :
+  omap_set_ncalls_replace = 1 /\ omap_set_ncalls_add = 0 /\ omap_delete_ncalls_remove = 1 /\
+  omap_getok_ncalls_get = 1 /\ omap_get_ncalls_getok = 1 /\ omap_clear_ncalls_clear = 1 /\
+  omap_first_ncalls_min = 1 /\ omap_last_ncalls_max = 1 /\ omap_iseek_ncalls_after = 1 /\
+  omap_iseek_ncalls_cursor = 1 /\ omap_inext_ncalls_next = 1 /\ omap_iprev_ncalls_prev = 1 /\
+  omap_ivalid_ncalls_valid = 1.
+Proof. repeat split; reflexivity. Qed.
